@@ -72,12 +72,21 @@ def mutations(M, rng):
                         if f["name"] == fname: fn(d, f)
         m = clone(); edit_obj_field(m, lambda d, f: d["fields"].remove(f)); out.append(("interface-field-missing", m, {}))
         m = clone(); edit_obj_field(m, lambda d, f: f.__setitem__("type", {"n": "Boolean"} if base(f["type"]) != "Boolean" else {"n": "Int"})); out.append(("interface-field-type-incompatible", m, {}))
+        # same named type, other list / non-null shape (covariant shapes are not violations: the Lean specification decides)
+        def reshape(t):
+            b_ = {"n": base(t)}
+            shapes = [b_, {"nn": b_}, {"l": b_}, {"nn": {"l": b_}}, {"l": {"nn": b_}}, {"nn": {"l": {"nn": b_}}}, {"l": {"l": b_}}]
+            return rng.choice([x for x in shapes if x != t])
+        for _ in range(3):
+            m = clone(); edit_obj_field(m, lambda d, f: f.__setitem__("type", reshape(f["type"]))); out.append(("interface-field-type-rewrapped", m, {}))
         m = clone(); edit_obj_field(m, lambda d, f: f.__setitem__("args", f["args"] + [{"name": "extraRequired", "type": {"nn": {"n": "Int"}}, "default": None}])); out.append(("interface-extra-required-argument", m, {}))
         withargs = [(o2, i2, f) for o2, i2 in impl for f in ifull[i2] if f["args"]]
         if withargs:
             o, i, f0 = rng.choice(withargs); fname = f0["name"]
             m = clone(); edit_obj_field(m, lambda d, f: f.__setitem__("args", f["args"][1:])); out.append(("interface-argument-missing", m, {}))
             m = clone(); edit_obj_field(m, lambda d, f: f["args"][0].__setitem__("type", {"n": "Boolean"} if base(f["args"][0]["type"]) != "Boolean" else {"n": "Int"})); out.append(("interface-argument-mistyped", m, {}))
+            for _ in range(2):
+                m = clone(); edit_obj_field(m, lambda d, f: f["args"][0].__setitem__("type", reshape(f["args"][0]["type"]))); out.append(("interface-argument-rewrapped", m, {}))
     if objs and len(objs) >= 2:
         m = clone(); d = pick_def(m, "object"); other = rng.choice([x["name"] for x in objs if x["name"] != d["name"]] + ([enums[0]["name"]] if enums else []))
         d["interfaces"] = (d.get("interfaces") or []) + [other]; out.append(("implements-non-interface", m, {}))
@@ -198,6 +207,9 @@ def mutations(M, rng):
             m["exts"].append(e); out.append((f"extension-internal-duplicate-field/{kind}", m, {}))
     if M["directives"]:
         out.append(("non-awaitable-directive-hook", clone(), {"sync_hook": True}))
+        # the same at every implementable hook, in several spellings of "not awaitable"
+        for style in ("plain", "wrapped", "lambda", "callable-object"):
+            out.append((f"non-awaitable-directive-hook/{style}", clone(), {"sync_hook": style}))
     return out
 
 def full_union_members(M, name):
@@ -226,6 +238,28 @@ class SyncMark:
 class AsyncMark:
     async def on_field_execution(self, da, nxt, parent, args, ctx, info): return await nxt(parent, args, ctx, info)
 
+HOOKS = ("on_post_bake", "on_pre_output_coercion", "on_introspection", "on_post_input_coercion", "on_argument_execution", "on_field_execution",
+         "on_field_collection", "on_fragment_spread_collection", "on_inline_fragment_collection", "on_schema_execution")
+_hook_turn = itertools.count()
+def sync_impl(style):
+    """an implementation whose hook (one of the ten function hooks, in turn) is not awaitable; the others are fine"""
+    import functools
+    hook = HOOKS[next(_hook_turn) % len(HOOKS)]
+    async def proper(self, *a, **k): return None
+    if style == "plain":
+        def bad(self, *a, **k): return None
+    elif style == "wrapped":
+        @functools.wraps(proper)                       # looks like the coroutine function it decorates, returns a plain value
+        def bad(self, *a, **k): return "not awaitable"
+    elif style == "lambda":
+        bad = lambda self, *a, **k: None
+    else:
+        class _Obj:
+            def __call__(self, *a, **k): return None
+        bad = _Obj()
+    ns = {"on_field_execution": AsyncMark.on_field_execution, hook: bad}
+    return type("SyncAt_" + hook, (), ns)()
+
 _uid = itertools.count()
 async def try_build(M, opts, seed):
     from tartiflette import create_engine, Scalar, Directive
@@ -239,8 +273,14 @@ async def try_build(M, opts, seed):
     # from one schema name to the next)
     Mark = SyncMark if opts.get("sync_hook") else AsyncMark
     reg_error = None
-    for dd in {d["name"]: d for d in M["directives"]}.values():
-        try: Directive(dd["name"], schema_name=name)(Mark())
+    dds = list({d["name"]: d for d in M["directives"]}.values())
+    for i, dd in enumerate(dds):
+        try:
+            if isinstance(opts.get("sync_hook"), str):
+                # only ONE of the directives is badly implemented
+                Directive(dd["name"], schema_name=name)(sync_impl(opts["sync_hook"]) if i == len(dds) - 1 else AsyncMark())
+            else:
+                Directive(dd["name"], schema_name=name)(Mark())
         except Exception as e: reg_error = e
     chunks = c11.sdl_chunks(M)
     if opts.get("force_schema_def") and not any(c.startswith("schema {") for c in chunks):
@@ -277,7 +317,7 @@ async def explore(tier, seed, m):
             viol = v["violations"]
             for t in v.get("beyond", []): st["beyond"][t] = st["beyond"].get(t, 0) + 1
             if intent == "syntax-invalid": viol = viol or ["syntax"]          # classified by construction: the harness cannot parse SDL itself
-            if intent == "non-awaitable-directive-hook": viol = viol or ["non-awaitable-hook"]
+            if intent.startswith("non-awaitable-directive-hook"): viol = viol or ["non-awaitable-hook"]
             res, msg, sdl, usable = await try_build(Mx, opts, seed)
             st["evaluations"] += 1
             st["by_intent"][intent] = st["by_intent"].get(intent, 0) + 1
@@ -298,7 +338,7 @@ async def explore(tier, seed, m):
                 if v.get("beyond"):
                     # rules of the specification the property does not list: whatever the engine does is accepted
                     st["beyond_built"] += res == "built"
-                elif res != "built":
+                elif res != "built" and not intent.endswith("-rewrapped"):     # (a covariant re-wrapping is refused by the engine: KF-C11-1, not this property's direction)
                     st["problems"].append({"what": [f"SDL without violation does not build ({msg})"], "intent": intent, "sdl": sdl})
             if len(st["samples"]) < 5 and viol and res == "raised" and i == 0:
                 st["samples"].append({"intent": intent, "violated_rules": viol, "engine_error": msg})
